@@ -34,6 +34,9 @@ TEMPLATES = {
                         ['a', 'b', ':', ' ']),
     'field-named-exp': ("start::{p}Prog: body:{{stmt}} $ ;\n\nstmt::{p}Ret: 'a' exp:[e] cond:[';' e] ;\n\ne::{p}E: v:/b/ ;\n", ['a', 'b', ';', ' ']),
     'typed-over-untyped-dict': ("start::{p}Doc: body:{{stmt}} $ ;\n\nstmt::{p}Stmt: 'a' @:assign | assign ;\n\nassign: k:/b/ ':' v:/b/ ;\n", ['a', 'b', ':', ' ']),
+    # a type declared with its base in one rule and used as the base of a later rule's chain
+    'type-reused-as-base': ("start::{p}Prog: body:{{stmt}} $ ;\n\nstmt: loop | assign ;\n\nassign::{p}Assign::{p}Stmt: '+' v:/b/ ;\n\nloop::{p}Loop::{p}Assign: '-' v:/b/ ;\n",
+                            ['+', '-', 'b', ' ']),
     'untyped-between': ("start::{p}Doc: g:group $ ;\n\ngroup: a:item b:[item] ;\n\nitem::{p}Item: v:/[ab]/ ;\n", ['a', 'b', ' ']),
 }
 
